@@ -415,6 +415,14 @@ func (r *Rng) gjFeature() featIn {
 	default:
 		f.Properties = r.gjProps(2)
 	}
+	if f.Properties != nil && r.chance(1, 4) {
+		// properties named like members of the Feature object itself are just properties
+		name := []string{"id", "type", "bbox", "geometry", "properties", "ID"}[r.Intn(6)]
+		f.Properties[name] = []interface{}{"x7", 42.0, "Feature", nil, true}[r.Intn(5)]
+		if r.chance(1, 2) {
+			f.ID = ""
+		}
+	}
 	return featIn{f, fmt.Sprintf("(%s %s %s %s)", hexStr(f.ID), sxGjBounds(f.BBox), tree, sxProps(f.Properties))}
 }
 
